@@ -206,13 +206,13 @@ func TestC08FailedTx(t *testing.T) {
 			view.Close()
 			// ---- the real block on both replicas
 			if _, err := sim.E.Propose(b, prober, prober); err != nil {
-				rec.Discard("proposal-failed")
+				rec.Discard("proposal-failed:" + chain.Why(err))
 				return
 			}
 			o0 := sim.E.Execute(prober, b, chain.PathProcess, nil)
 			o1 := sim.E.Execute(twin, b, chain.PathReplay, nil)
 			if o0.Err != nil || o1.Err != nil || !o0.Accepted {
-				rec.Discard("block-failed")
+				rec.Discard("block-failed:" + chain.Why(o0.Err) + "/" + chain.Why(o1.Err))
 				return
 			}
 			if !bytes.Equal(o0.AppHash, o1.AppHash) {
@@ -221,7 +221,7 @@ func TestC08FailedTx(t *testing.T) {
 			sim.Logf("h=%d txs=%d", b.Height, len(bg.Txs))
 			fp = append(fp, b.Hash)
 			if err := sim.AfterCommit(b, o0); err != nil {
-				rec.Discard("engine-contract")
+				rec.Discard("engine-contract:" + chain.Why(err))
 				return
 			}
 		}
